@@ -2,6 +2,7 @@
 // ConfigFile::new applies after deserialisation.
 use vstd::prelude::*;
 use std::collections::{BTreeMap, BTreeSet};
+use vstd::std_specs::cmp::PartialEqSpec;
 verus! {
 
 // R1 shim: a locale / namespace name (identity = name, see utils/key.rs)
@@ -93,6 +94,19 @@ impl ConfigFile {
 }
 
 //@@ normalise_default_first
+
+// ---- shims for the lifted `inherits` validation of CfgFileVisitor::visit_map (rule E3) ----
+// serde's error constructor and format!: opaque (M1: the macro call becomes a total function of its arguments)
+pub struct DeError { pub msg: u8 }
+pub mod serde { pub mod de { pub mod Error {
+    use vstd::prelude::*;
+    verus! { #[verifier::external_body] pub fn custom<T>(t: T) -> super::super::super::DeError { unimplemented!() } }
+} } }
+#[verifier::external_body] pub fn fmt<A>(a: A) -> String { unimplemented!() }
+pub assume_specification<T: PartialEq>[ <[T]>::contains ](s: &[T], x: &T) -> (r: bool)
+    ensures T::obeys_eq_spec() ==> r == exists|i: int| 0 <= i < s@.len() && s@[i].eq_spec(x);
+
+//@@ validate_inherits
 
 } // verus!
 fn main() {}
